@@ -64,8 +64,9 @@ Definition sub_level (lv : level) (n : str) : level :=
 
 Definition top_level (x : input) : level :=
   {| lv_argv := match i_entry x with EArgs a => Some a | _ => None end;
-     lv_cfgs := match i_entry x with EObject c => [c] | EString c => [c] | EArgs _ => [] end;
-     lv_env := i_env x |}.
+     lv_cfgs := match i_entry x with EObject c => [c] | EString c => [c] | _ => [] end;
+     (* parse_env(m): the environment of this parse is the mapping, not os.environ *)
+     lv_env := match i_entry x with EEnv m => Some m | _ => i_env x end |}.
 
 Definition is_some {A} (o : option A) : bool := match o with Some _ => true | None => false end.
 
@@ -226,6 +227,13 @@ Fixpoint argv_consistent (fuel : nat) (p : parser) (a : argvt) : bool :=
 
 Definition input_consistent (fuel : nat) (p : parser) (x : input) : bool :=
   match i_entry x with EArgs a => argv_consistent fuel p a | _ => true end.
+
+(* class 3: parse_env(mapping) while os.environ holds variables of this parser's prefix *)
+Definition osenv_clean (x : input) : bool :=
+  match i_entry x with
+  | EEnv _ => match i_env x with Some (_ :: _) => false | _ => true end
+  | _ => true
+  end.
 
 (* ---------- well-formed trees (hypothesis of the theorems), as a checker ---------- *)
 (* option names, subcommand names and dest are pairwise different inside one parser; no empty
